@@ -991,7 +991,7 @@ fn main() {
         ctx.finish(Coverage { evaluations: actions.len() as u64, ..Default::default() });
     }
 
-    let depth = ctx.pick(3, 5);
+    let depth = ctx.pick(3, 6);
     let trees: Vec<&str> = ctx.pick(vec!["TA", "TB"], vec!["TA", "TB", "T0"]);
     let actions = alphabet(&trees);
     let tally = Tally::default();
